@@ -446,7 +446,7 @@ def run():
     rng = random.Random(SEED * 7919 + 13)
     # (1) MC
     for cls in ("mutations", "individuals"):
-        mc = common.tlc_mc("MC_TableOps", cfg="MC_TableOps_" + cls, timeout=600,
+        mc = common.tlc_mc("MC_TableOps", cfg="MC_TableOps_" + cls, timeout=3000,
                            constants=None)
         chk.add_tlc(mc)
         chk.extra["mc_" + cls] = dict(states=mc["states"], transitions=mc["transitions"], completed=mc["ok"])
